@@ -403,7 +403,7 @@ def history_pass(ctx, collect):
     ctx.rng.shuffle(items)
     # documents with name-based violations first, then a sample
     items.sort(key=lambda it: 0 if any(k in it[3] for k in ("known_fragment_names", "unique_", "all_variable", "no_unused")) else 1)
-    cap = ctx.n(100, 1500)
+    cap = ctx.n(100, 700)
     hist_ok = set()
     for k, (world, text, first, label, feature) in enumerate(items[:cap]):
         if ctx.tier == "quick" and ctx.time_left() < 18:
